@@ -201,7 +201,7 @@ var specs = map[string]*CheckSpec{
 		ID: "C19", Flavour: "codegen", Level: "exploration",
 		Quick:    []Batch{{Name: "c19.docs", Count: 700}, {Name: "c19.mapkw", Count: 80}},
 		Thorough: []Batch{{Name: "c19.docs", Count: 60000}, {Name: "c19.mapkw", Count: 4000}},
-		Rule:     "each trial = one generated schema YAML document (0-6 objects x 0-6 properties, every type ID, references to existing and missing objects, identifier-valid names) fed to the code generator built from the working tree with a map-order seam, as a subprocess in a fresh temporary directory, with and without the ignore argument, under the natural, three drawn, the reversed and the runtime's own map iteration order (12 executions per trial); oracles: exit status 0 and no panic, byte-identical output across orders, output parses with go/parser and contains exactly the modelled structs and JSON-tagged typed fields; distinct = distinct document; non-trivial = at least two objects or two properties",
+		Rule:     "each trial = one generated schema YAML document (0-6 objects x 0-6 properties, every type ID, references to existing and missing objects, identifier-valid names) fed to the code generator built from the working tree with a map-order seam, as a subprocess in a fresh temporary directory, with and without the ignore argument, under the natural, three drawn, the reversed and the runtime's own map iteration order (12 executions per trial; in half of the trials the previous output file is left in place between executions, as under go generate); oracles: exit status 0 and no panic, byte-identical output across orders, output parses with go/parser and contains exactly the modelled structs and JSON-tagged typed fields; distinct = distinct document; non-trivial = at least two objects or two properties",
 		Real:     []string{"cmd/arcaflow-codegen/gen.go (whole program, as a subprocess), go/format, yaml.v3, x/text"},
 		Stub:     []string{"runtime map iteration order -> local zzMapOrder seam driven by the environment"},
 		Assume:   []string{"the generator's working directory and argument vector are the only inputs besides the document", "go:generate integration is not exercised"},
